@@ -1743,6 +1743,25 @@ func (k *Kernel) handleStateMachineRoundEntrance(ctx context.Context, s *kState,
 			return
 		}
 
+		if status == ViewOrphaned {
+			// The network has already left that round of the voting height behind,
+			// so the kernel is no longer tracking a view for it.
+			// Answer with an empty view of the requested round,
+			// and signal a jump ahead so the state machine moves on towards the voting round
+			// (one round at a time, if it is more than one round behind).
+			orphan := s.Voting.Clone()
+			orphan.ResetForSameHeight()
+			orphan.Round = re.R
+
+			// Response channel is 1-buffered so it is safe to send this without a select.
+			re.Response <- tmeil.RoundEntranceResponse{
+				VRV: orphan,
+			}
+			s.StateMachineViewManager.MarkFirstSentVersion(orphan.Version)
+			s.StateMachineViewManager.JumpToRound(s.Voting)
+			return
+		}
+
 		panic(fmt.Errorf(
 			"TODO: handle view not found (status=%s) when responding to state machine round update for height/round %d/%d",
 			status, re.H, re.R,
